@@ -97,6 +97,45 @@ func catalogue() []reqItem {
 			add(mkItem(s.Name+"|bad:"+b.Class, "bad", b.Elems))
 		})
 	}
+	// option words in every ordered pair (and alone): legal ones, legal ones with their value,
+	// a sibling command's word, an unknown word, a word whose value is missing. Nothing is
+	// claimed about the reply's content; every such request is answered once and the
+	// connection goes on.
+	type optFam struct {
+		head   []string   // the request up to the options
+		tail   []string   // what follows the options
+		tokens [][]string // option tokens
+	}
+	rangeTokens := [][]string{{"BYSCORE"}, {"BYLEX"}, {"REV"}, {"WITHSCORES"}, {"LIMIT", "0", "1"}, {"WITHSCORE"}, {"LIMIT", "1"}}
+	expTokens := [][]string{{"NX"}, {"XX"}, {"GT"}, {"LT"}, {"FOO"}}
+	for _, f := range []optFam{
+		{head: []string{"ZRANGE", "z", "0", "-1"}, tokens: rangeTokens},
+		{head: []string{"ZREVRANGE", "z", "0", "-1"}, tokens: rangeTokens},
+		{head: []string{"ZRANGEBYSCORE", "z", "-inf", "+inf"}, tokens: rangeTokens},
+		{head: []string{"ZREVRANGEBYSCORE", "z", "+inf", "-inf"}, tokens: rangeTokens},
+		{head: []string{"SET", "k", "v"}, tokens: [][]string{{"NX"}, {"XX"}, {"GET"}, {"KEEPTTL"}, {"EX", "10"}, {"PX", "10"}, {"EXAT", "100"}, {"PXAT", "100"}, {"FOO"}, {"EX"}}},
+		{head: []string{"ZADD", "z"}, tail: []string{"1", "m"}, tokens: [][]string{{"NX"}, {"XX"}, {"GT"}, {"LT"}, {"CH"}, {"INCR"}, {"FOO"}}},
+		{head: []string{"EXPIRE", "k", "10"}, tokens: expTokens},
+		{head: []string{"EXPIREAT", "k", "10"}, tokens: expTokens},
+		{head: []string{"SCAN", "0"}, tokens: [][]string{{"MATCH", "a*"}, {"COUNT", "5"}, {"TYPE", "string"}, {"FOO"}, {"MATCH"}}},
+	} {
+		mk := func(toks ...[]string) {
+			args := append([]string{}, f.head...)
+			label := ""
+			for _, t := range toks {
+				args = append(args, t...)
+				label += "+" + strings.Join(t, "_")
+			}
+			args = append(args, f.tail...)
+			add(mkItem(f.head[0]+"|options:"+label[1:], "options", bulkElems(args)))
+		}
+		for _, a := range f.tokens {
+			mk(a)
+			for _, b := range f.tokens {
+				mk(a, b)
+			}
+		}
+	}
 	grammar.ConfigRequests(func(r grammar.Req) {
 		add(mkItem("CONFIG|valid:"+r.Shape, "valid", bulkElems(r.Args)))
 	})
